@@ -28,6 +28,9 @@ def gen_case(rng, thorough):
     if lab is not None:
         ds = {i: (X_, lab[y_]) for i, (X_, y_) in ds.items()}
     minrows = min(len(ds[i][0]) for i in ds)
+    # one more dataset, of ANOTHER width: never fitted on, only offered as refit data to update_sensors - a request to be rejected as a whole
+    Xn, yn = U.class_data(rng, n_features=n - 1, n_classes=c)
+    ds[nd + 1] = (Xn, (lab[yn] if lab is not None else yn))
     kind = U.BK[int(rng.integers(0, 3))]
     if kind == "Identity":
         bmodes = None if rng.random() < 0.5 else int(rng.integers(3, minrows + 1))
@@ -45,7 +48,9 @@ def gen_case(rng, thorough):
         if r < 0.35:
             hist.append(["fit", d, bool(rng.random() < 0.5)])
         elif r < 0.8:
-            if rng.random() < 0.6:
+            if rng.random() < 0.12:
+                hist.append(["upd", "count", int(rng.integers(1, n)), nd + 1])            # refit data of the wrong width
+            elif rng.random() < 0.6:
                 hist.append(["upd", "count", int(rng.integers(0, n + 1)), d])
             else:
                 hist.append(["upd", "thr", float(rng.choice([0.0, 0.125, 0.5, 1.0, 4.0, 1e6])), d])
